@@ -127,6 +127,16 @@ def job_roundtrip(job):
                 fm2 = m.filter(lambda k, v: k in sel)
                 if dict(zip(fm2.keys(), fm2.values())) != {k: v for k, v in supplied.items() if k in sel}:
                     fail({'config': cfg, 'form': form, 'what': 'filter() differs', 'keys': list(ks)})
+            # graded mode: complete grades given in another order either raise or are stored blade-correctly
+            if cfg.get('graded') and len(ks) > 1:
+                perm = list(range(len(ks)))
+                rng.shuffle(perm)
+                pk, pv = tuple(ks[i] for i in perm), [vs[i] for i in perm]
+                out['evaluations'] += 1
+                got = _safe(lambda: alg.multivector(keys=pk, values=list(pv)))
+                if got[0] == 'value' and dict(zip(got[1].keys(), got[1].values())) != supplied:
+                    fail({'config': cfg, 'form': 'graded keys+values, complete grades in another order', 'what': 'coefficients attached to other blades than supplied',
+                          'keys': list(pk), 'got': str(dict(zip(got[1].keys(), got[1].values())))[:200]})
             # inconsistent input raises
             bad = {
                 'length mismatch': lambda: alg.multivector(keys=ks, values=list(vs) + [1]),
